@@ -46,6 +46,7 @@ def main(argv=None):
     c.add_argument("pid")
     c.add_argument("--tier", default=os.environ.get("VERIF_TIER", "quick"), choices=["quick", "thorough"])
     c.add_argument("--repo", default=None)
+    c.add_argument("--nowrite", action="store_true", help="do not write evidence / replay files (used when trying a scratch change)")
     a = sub.add_parser("all")
     a.add_argument("--tier", default="quick", choices=["quick", "thorough"])
     a.add_argument("--repo", default=None)
@@ -59,13 +60,19 @@ def main(argv=None):
     args = ap.parse_args(argv)
 
     if args.cmd == "check":
-        code, chk, err = run_check(args.pid, args.tier, args.repo)
+        code, chk, err = run_check(args.pid, args.tier, args.repo, write=not args.nowrite)
         if err:
             print(err)
+        if args.nowrite and chk is not None:
+            for v in chk.violations:
+                print(f"VIOLATION property={args.pid} replay=- (nowrite)")
+                print(f"   {v['where']} [{v['rule']}] {v['construct']}: {v['msg'][:300]}")
         return code
     if args.cmd == "all":
         worst = 0
         for pid in CLAIMED:
+            if not os.path.exists(os.path.join(os.path.dirname(__file__), "props", pid + ".py")):
+                continue
             code, chk, err = run_check(pid, args.tier, args.repo)
             if err:
                 print(err)
